@@ -7,6 +7,7 @@ Property theorems only (lemmas: Lemmas/ParserUtf8.lean, ParserTextU.lean, Parser
 import VaxisModel.Lemmas.ParserRead
 import VaxisModel.Lemmas.ParserConform
 import VaxisModel.Gen.ParserReader
+import VaxisModel.Lemmas.ParserReaderInterp
 
 namespace VaxisModel.Props.C02Text
 open VaxisModel.Model.ParserTable VaxisModel.Model.Parser VaxisModel.Model.ParserIO VaxisModel.Model.ParserUtf8
@@ -68,6 +69,64 @@ theorem reader_skeleton_recognised :
     Gen.ParserReader.emitBody = Model.ParserReaderSk.handEmit ∧
     Gen.ParserReader.unrecognised = [] ∧ Gen.ParserTable.fallbackOnlyInvalid = true ∧
     Gen.ParserTable.lookaheadStopsAtInvalid = true := by decide
+
+/-! ## The regenerated bodies, executed -/
+
+open VaxisModel.Model.ParserReaderInterp in
+/-- **`readRune` as the source says it = the model's `readRune`** — the body regenerated from
+    ansi/parser.go on this run, *interpreted* statement by statement over the reader model
+    (`ReadRune` = fill loop + `utf8.DecodeRune`; stop the timer; `if r == ReplacementChar && size == 1
+    { UnreadRune; ReadByte; r = rune(b) }` with both error returns; `if err != nil { return eof }`;
+    `return r`), gives for **every** reader state (any buffer contents, any reads still to come)
+    exactly what `ParserIO.readRune` — the function all theorems about the reading side are stated
+    over — gives.  Not a pin of the text: a reordering that keeps the meaning keeps the theorem, a
+    change of a condition or a missing `UnreadRune` breaks it. -/
+theorem readRune_body_eq_model (rd : Rd) :
+    readRuneI Gen.ParserReader.readRuneBody rd = some (readRune rd) := by
+  have h : Gen.ParserReader.readRuneBody = Model.ParserReaderSk.handReadRune true := by decide
+  rw [h]
+  exact VaxisModel.Lemmas.ParserReaderInterp.readRuneI_hand rd
+
+open VaxisModel.Model.ParserReaderInterp in
+/-- **`print` as the source says it = the model's `printLoop`, with its width.**  The regenerated
+    body of `print(r)` interpreted over the reader model — builder, `for p.r.Buffered() > 0 { ReadRune;
+    invalid byte ⇒ UnreadRune, break; WriteRune; FirstGraphemeClusterInString; rest ≠ "" ⇒ UnreadRune,
+    break }`, `if w == 0 { w = StringWidth(grapheme) }`, `emit(Print{grapheme, w})` — for every reader
+    state, every rune, every cluster length `cl ≥ 1` the oracle reports and any width functions:
+    the grapheme emitted and the reader afterwards are `printLoop cl fuel rd [r]`, and the width is
+    either `StringWidth` of that grapheme or the non-zero width `FirstGraphemeClusterInString`
+    reported for exactly that grapheme. -/
+theorem print_body_eq_model (cl : Nat) (hcl : 1 ≤ cl) (wd sw : List Rune → Nat) (fuel : Nat) (r : Rune) (rd : Rd) :
+    ∃ w, interpPrint cl wd sw fuel r Gen.ParserReader.printBody rd =
+        some ((printLoop cl fuel rd [r]).1, w, (printLoop cl fuel rd [r]).2) ∧
+      (w = sw (printLoop cl fuel rd [r]).1 ∨ (w = wd (printLoop cl fuel rd [r]).1 ∧ w ≠ 0)) := by
+  have h : Gen.ParserReader.printBody = Model.ParserReaderSk.handPrint := by decide
+  rw [h]
+  exact VaxisModel.Lemmas.ParserReaderInterp.interpPrint_hand cl hcl wd sw fuel r rd
+
+open VaxisModel.Model.ParserReaderInterp in
+/-- **Each Print carries the display width of its grapheme.**  If the width uniseg reports for a
+    first cluster is the `StringWidth` of that cluster whenever it is not 0 (`StringWidth` is the sum
+    of exactly these widths; checked on every Print of the correspondence run: verdict `W!`), the
+    width `print` emits is `StringWidth(grapheme)` — for the grapheme it emits, whatever the reads,
+    the buffer and the look-ahead did (cut at a read boundary, stopped by an invalid byte, …). -/
+theorem print_width (cl : Nat) (hcl : 1 ≤ cl) (wd sw : List Rune → Nat) (hw : ∀ g, wd g ≠ 0 → wd g = sw g)
+    (fuel : Nat) (r : Rune) (rd : Rd) :
+    interpPrint cl wd sw fuel r Gen.ParserReader.printBody rd =
+      some ((printLoop cl fuel rd [r]).1, sw (printLoop cl fuel rd [r]).1, (printLoop cl fuel rd [r]).2) := by
+  obtain ⟨w, h1, h2⟩ := print_body_eq_model cl hcl wd sw fuel r rd
+  rcases h2 with h2 | ⟨h2, h3⟩
+  · rw [h1, h2]
+  · rw [h1, h2, hw _ (by rw [← h2]; exact h3)]
+
+-- non-vacuity: "e" + U+0301 in the buffer, cluster length 2, widths 1: one Print of width 1, reader at the 'A'
+example : (Model.ParserReaderInterp.interpPrint 2 (fun _ => 1) (fun _ => 1) 10 0x65 Gen.ParserReader.printBody
+    { buf := [0xCC, 0x81, 0x41], chunks := [] }).map (fun x => (x.1, x.2.1, x.2.2.buf, x.2.2.pos)) =
+    some ([0x65, 0x301], 1, [0x41], 2) := by decide
+-- … and an invalid byte in the look-ahead is left in the buffer (F102d repaired)
+example : (Model.ParserReaderInterp.interpPrint 2 (fun _ => 1) (fun _ => 1) 10 0x600 Gen.ParserReader.printBody
+    { buf := [0xFF, 0x41], chunks := [] }).map (fun x => (x.1, x.2.1, x.2.2.buf, x.2.2.pos)) =
+    some ([0x600], 1, [0xFF, 0x41], 0) := by decide
 
 /-! ## The reads disappear -/
 
